@@ -252,7 +252,10 @@ def r16_34(ck: Check) -> None:
                             "at such a height fails instead of yielding a subsidy of 0" % (h, lo, hi, str(r2)[:100]), fi.loc)
                 return
             if not done:
-                raise AnalysisError("get_block_subsidy can fall off its end without returning (height %d)" % h)
+                ck.violated("R16.4", "get_block_subsidy is defined (and zero after exhaustion) for every encodable height 0..2^32-1",
+                            "for height %d (cell [%d, %d)) no return statement is reached: the function yields None, and the reward check "
+                            "`outputs > fees + subsidy` fails with a TypeError instead of comparing with 0" % (h, lo, hi), fi.loc)
+                return
             got.append(v)
         v = got[0]
         if not isinstance(v, int) or isinstance(v, bool):
